@@ -55,10 +55,14 @@ confirmed = ran["demo_clean"]["rc"] == 0 and ran.get("apply", {}).get("rc") == 0
 # run the check against the change
 t0 = time.time()
 rc, out = sh("git -C /repo apply %s" % patch)
+ev = "/verif/evidence/%s.json" % prop
+evbak = open(ev).read() if os.path.exists(ev) else None     # the committed evidence must come from the unchanged tree
 try:
     rcc, outc = sh("cd /verif && python3-vt -m esvc.check %s --tier quick" % prop, timeout=3000)
 finally:
     sh("git -C /repo checkout -- . ")
+    if evbak is not None:
+        open(ev, "w").write(evbak)
 viol = [l for l in outc.splitlines() if l.startswith("VIOLATION")]
 meta.update(confirmed=confirmed, ran=ran, check=dict(cmd="python3-vt -m esvc.check %s --tier quick" % prop, exit=rcc,
                                                        violations=viol[:6], detail=[l for l in outc.splitlines() if l.startswith("   ")][:6],
